@@ -27,6 +27,10 @@ def totals(out):
     return p, f
 
 def main():
+    if len(sys.argv) > 1 and sys.argv[1] == "--cleanup":
+        sh("git -C %s worktree remove --force /tmp/confirm-shared" % REPO)
+        sh("git -C %s worktree prune" % REPO)
+        return
     ap = argparse.ArgumentParser()
     ap.add_argument("seed")
     ap.add_argument("--patch", required=True)
@@ -38,13 +42,20 @@ def main():
     ap.add_argument("--origin", default="sub-agent")
     ap.add_argument("--tier", default="quick")
     ap.add_argument("--skip-confirm", action="store_true")
+    ap.add_argument("--reuse-wt", action="store_true")
     a = ap.parse_args()
     meta = dict(seed=a.seed, breaks_property=a.breaks, needs=a.needs, origin=a.origin, ran=[])
     wt = "/tmp/confirm-" + a.seed
+    if a.reuse_wt:
+        # one persistent scratch worktree (incremental builds); remove it with `seedtool.py --cleanup`
+        wt = "/tmp/confirm-shared"
     if not a.skip_confirm:
-        sh("git -C %s worktree remove --force %s" % (REPO, wt))
-        rc, out = sh("git -C %s worktree add -q %s HEAD" % (REPO, wt))
-        assert rc == 0, out
+        if a.reuse_wt and os.path.isdir(wt):
+            sh("git checkout -- . && git clean -fdq -e target", cwd=wt)
+        else:
+            sh("git -C %s worktree remove --force %s" % (REPO, wt))
+            rc, out = sh("git -C %s worktree add -q %s HEAD" % (REPO, wt))
+            assert rc == 0, out
         try:
             rc, out = sh("git apply %s" % os.path.abspath(a.patch), cwd=wt)
             assert rc == 0, "patch does not apply: " + out
@@ -65,8 +76,11 @@ def main():
             print("demo without change: exit=%d" % rc2)
             meta["confirmed"] = (f == 0 and p >= 39 and rc == 0 and rc1 != 0 and rc2 == 0)
         finally:
-            sh("git -C %s worktree remove --force %s" % (REPO, wt))
-            sh("git -C %s worktree prune" % REPO)
+            if a.reuse_wt:
+                sh("git checkout -- . && git clean -fdq -e target", cwd=wt)
+            else:
+                sh("git -C %s worktree remove --force %s" % (REPO, wt))
+                sh("git -C %s worktree prune" % REPO)
         print("CONFIRMED" if meta["confirmed"] else "NOT CONFIRMED")
     # run the checks against the change applied to /repo itself
     rc, out = sh("git -C %s status --porcelain" % REPO)
